@@ -432,6 +432,11 @@ func ruleJSONOP(c *Ctx, r *Report) {
 		v := c.resolve(s.st.Val, nil)
 		ok := false
 		switch x := v.(type) {
+		case *ssa.Call:
+			// the same table written as a function from the name to the operator
+			if fs.Fn != nil && x.Call.StaticCallee() == fs.Fn {
+				ok = true
+			}
 		case *ssa.Lookup:
 			if ld, isLd := x.X.(*ssa.UnOp); isLd && fs.Global != nil && ld.X == ssa.Value(fs.Global) {
 				ok = true
